@@ -35,3 +35,22 @@ func TestF08FormBodyTokenLeftUnsalted(t *testing.T) {
 		t.Errorf("forwarded Authorization header = %q, want a salted Bearer token", got)
 	}
 }
+
+// The rewritten request must still be a well-formed HTTP request when proxied.
+func TestF08ForwardedRequestIsConsistent(t *testing.T) {
+	h := &Handler{Cluster: &arvados.Cluster{ClusterID: "zhome"}}
+	form := url.Values{"api_token": {"v2/zhome-gj3su-000000000000000/3kg6k6lzmp9kj5cpkcoxie963cmvjahbt2fod9zru30k1jqdmi"}, "x": {"y"}}
+	req, _ := http.NewRequest("POST", "https://zhome.example/arvados/v1/workflows", strings.NewReader(form.Encode()))
+	req.Header.Set("Content-Type", "application/x-www-form-urlencoded")
+	out, err := h.saltAuthToken(req, "zzzzz")
+	if err != nil {
+		t.Fatal(err)
+	}
+	body, _ := ioutil.ReadAll(out.Body)
+	if out.ContentLength != int64(len(body)) {
+		t.Errorf("ContentLength %d but body has %d bytes (%q)", out.ContentLength, len(body), body)
+	}
+	if string(body) != "x=y" {
+		t.Errorf("body = %q, want the other form fields only", body)
+	}
+}
